@@ -220,3 +220,55 @@ def run_fidelity(prop: str, seed: int) -> dict:
         shutil.rmtree(root, ignore_errors=True)
         res["wall_s"] = round(time.time() - t0, 2)
     return res
+
+
+def run_readme_order(prop: str, seed: int) -> dict:
+    """C09 in really fresh processes with the README construction order (problem built before
+    the solver switches 64-bit mode on): uninterrupted run and interrupted run are both executed
+    with real lifetimes and that boot order, and must agree sweep by sweep and in the final state."""
+    from . import lifetime as L
+    from .world import same_state
+
+    t0 = time.time()
+    root = scratch_root()
+    res = {"prop": prop, "seed": seed, "verdict": "pass", "violations": []}
+    try:
+        plan, ctl = build_plan(prop, seed, root)
+        if not ctl.ok or not plan["lifetimes"] or Q.is_shuffled(plan["world"]):
+            res["verdict"] = "skipped"
+            return res
+        for lt in plan["lifetimes"]:
+            lt.pop("crash", None)  # clean interruptions only: kills are covered by the fidelity phase
+        plan["readme_order"] = True
+        res["plan"] = plan
+        c = L.run_real(P.control_plan(plan["world"], plan["Tmax"]), os.path.join(root, "c"), x64_first=False)
+        b = L.run_real(plan, os.path.join(root, "r"), x64_first=False)
+        res["lifetimes"] = len(plan["lifetimes"]) + 1
+        res["dtype"] = c.hist["lifetimes"][0]["boot"].get("values_dtype")
+        cs = {it: (v, p) for it, v, p in c.hist["lifetimes"][0]["sweeps"]}
+        for h in b.hist["lifetimes"]:
+            for it, v, p in h["sweeps"]:
+                if it in cs and cs[it] != (v, p):
+                    res["violations"].append({"class": f"{prop}:readme_order_trajectory_diverged", "msg": f"fresh processes, problem built before 64-bit mode: lifetime {h['i']} differs from the uninterrupted run after sweep {it}"})
+                    break
+        fin, cfin = b.finals[-1], c.finals[0]
+        last_ops = plan["lifetimes"][-1]["ops"]
+        if fin is not None and cfin is not None and b.hist["lifetimes"][-1]["calls"] and not any(o["op"] == "solve" for o in last_ops):
+            if int(fin["iteration"]) == int(cfin["iteration"]):
+                bad = same_state(cfin, fin)
+                if bad:
+                    res["violations"].append({"class": f"{prop}:readme_order_final_state_differs", "msg": f"fields {bad} differ from the uninterrupted run"})
+            else:
+                res["violations"].append({"class": f"{prop}:readme_order_final_iteration_differs", "msg": f"resumed run ended at {int(fin['iteration'])}, uninterrupted at {int(cfin['iteration'])}"})
+        if res["violations"]:
+            res["verdict"] = "violation"
+    except HarnessError as e:
+        res["verdict"] = "harness_error"
+        res["error"] = f"HarnessError: {e}"
+    except BaseException as e:  # noqa: BLE001
+        res["verdict"] = "harness_error"
+        res["error"] = f"{type(e).__name__}: {e}\n{traceback.format_exc()[-2000:]}"
+    finally:
+        shutil.rmtree(root, ignore_errors=True)
+        res["wall_s"] = round(time.time() - t0, 2)
+    return res
